@@ -28,8 +28,6 @@ package main
 import (
 	"encoding/json"
 	"fmt"
-	"os"
-	"runtime/pprof"
 	"sort"
 	"strconv"
 	"strings"
@@ -573,15 +571,8 @@ func (s *state) enabled(oi int) bool {
 
 func main() {
 	_ = logger.SetLogLevel("*:NONE")
-	if f := os.Getenv("C27_PPROF"); f != "" {
-		w, _ := os.Create(f)
-		pprof.StartCPUProfile(w)
-	}
 	mc.Main("C27", "model_checking", func(c *mc.Ctx) {
 		depth := c.Pick(5, 7)
-		if v, err := strconv.Atoi(os.Getenv("C27_DEPTH")); err == nil && v > 0 {
-			depth = v // development aid only
-		}
 		c.Rule = fmt.Sprintf("explicit-state BFS with state matching on the real ImmunityCache, one search per configuration, for every configuration of the box NumChunks %v x MaxNumItems %v x MaxNumBytes %v x NumItemsToPreemptivelyEvict %v that NewImmunityCache/CacheConfig.Verify accepts; "+
 			"keys: %d keys hashing (real fnv32) to chunk 0 and %d to chunk 1 (when NumChunks>=2); operations: HasOrAdd(key,size in %v), ImmunizeKeys(1 or 2 distinct keys), Remove(key), Clear, on every key up to symmetry (an absent key is offered only as lowest-numbered of its class); "+
 			"non-trivial = HasOrAdd of an absent key into a chunk at capacity (distinguished by config, admitted?, number evicted, number of immune items kept) or an ImmunizeKeys refused by the capacity guard",
@@ -663,7 +654,6 @@ func main() {
 			}
 		}
 		c.Count("configurations_searched_to_fixpoint", int64(fix))
-		pprof.StopCPUProfile()
 		o := &overshoot
 		if o.count > 0 {
 			o.det["transitions_showing_it"] = o.count
